@@ -1105,6 +1105,10 @@ func propC20(r *Run, w *World) {
 		instrsOf(fn, func(in ssa.Instruction) {
 			switch v := in.(type) {
 			case ssa.CallInstruction:
+				// a helper that is itself a pure function of its arguments is fine
+				if g := calleeOf(v.Common()); g != nil && pureOfArgs(g, 0) {
+					return
+				}
 				pure, why = false, "calls "+calleeName(in)
 			case *ssa.Store, *ssa.MapUpdate, *ssa.Send:
 				pure, why = false, "writes memory"
@@ -1170,3 +1174,31 @@ func c15Deterministic(r *Run, w *World, ruleID string) {
 }
 
 var _ = packages.NeedName
+
+// pureOfArgs: a repository function that reads no memory (no loads, no map reads), writes
+// nothing and calls only functions of the same kind — its result depends on its arguments only.
+func pureOfArgs(f *ssa.Function, depth int) bool {
+	if f == nil || !isRepoFunc(f) || depth > 3 || f.Recover != nil {
+		return false
+	}
+	ok := true
+	instrsOf(f, func(in ssa.Instruction) {
+		switch v := in.(type) {
+		case ssa.CallInstruction:
+			if b, isB := v.Common().Value.(*ssa.Builtin); isB && (b.Name() == "len" || b.Name() == "cap") {
+				return
+			}
+			g := calleeOf(v.Common())
+			if g == f || !pureOfArgs(g, depth+1) {
+				ok = false
+			}
+		case *ssa.Store, *ssa.MapUpdate, *ssa.Send, *ssa.Lookup, *ssa.Go, *ssa.Defer, *ssa.Select:
+			ok = false
+		case *ssa.UnOp:
+			if v.Op == token.MUL || v.Op == token.ARROW {
+				ok = false
+			}
+		}
+	})
+	return ok
+}
